@@ -27,12 +27,15 @@ var (
 )
 
 // Install sets the sandbox for the current run (nil = pass-through).
+//
+//go:norace
 func Install(f *FS) {
 	gmu.Lock()
 	cur = f
 	gmu.Unlock()
 }
 
+//go:norace
 func active() *FS {
 	gmu.Lock()
 	defer gmu.Unlock()
@@ -42,6 +45,7 @@ func active() *FS {
 // ErrInjected is the injected I/O error.
 var ErrInjected = errors.New("simfs: injected I/O error")
 
+//go:norace
 func (f *FS) resolve(p string) string {
 	if filepath.IsAbs(p) {
 		return filepath.Join(f.Root, p)
@@ -50,8 +54,11 @@ func (f *FS) resolve(p string) string {
 }
 
 // Resolve maps a path as the SUT sees it to the real sandbox path.
+//
+//go:norace
 func (f *FS) Resolve(p string) string { return f.resolve(p) }
 
+//go:norace
 func (f *FS) step(op string) error {
 	f.mu.Lock()
 	defer f.mu.Unlock()
@@ -69,6 +76,8 @@ func (f *FS) step(op string) error {
 }
 
 // TempFile replaces ioutil.TempFile.
+//
+//go:norace
 func TempFile(dir, pattern string) (*os.File, error) {
 	f := active()
 	if f == nil {
@@ -81,6 +90,8 @@ func TempFile(dir, pattern string) (*os.File, error) {
 }
 
 // Rename replaces os.Rename. Names returned by TempFile are already real paths.
+//
+//go:norace
 func Rename(oldp, newp string) error {
 	f := active()
 	if f == nil {
@@ -95,12 +106,15 @@ func Rename(oldp, newp string) error {
 	return os.Rename(oldp, f.resolve(newp))
 }
 
+//go:norace
 func hasPrefix(p, root string) bool {
 	r, err := filepath.Rel(root, p)
 	return err == nil && len(r) > 0 && r[0] != '.'
 }
 
 // OpenFile replaces os.OpenFile.
+//
+//go:norace
 func OpenFile(name string, flag int, perm os.FileMode) (*os.File, error) {
 	f := active()
 	if f == nil {
@@ -113,6 +127,8 @@ func OpenFile(name string, flag int, perm os.FileMode) (*os.File, error) {
 }
 
 // Remove replaces os.Remove.
+//
+//go:norace
 func Remove(name string) error {
 	f := active()
 	if f == nil {
